@@ -135,10 +135,32 @@ def classify(doc_model, terms, opts):
     E = bool(opts.get("expand_children", False))
     out = []
     unvisited = set()     # anchors whose defining occurrence lies in a region the search need not walk
+    # an anchor defined in KEY position whose alias is used in VALUE position (and the other way round): the statement
+    # still calls the alias a repeat, but the tools keep one alias bookkeeping per position kind -- its own class
+    key_defs, val_defs = set(), set()
 
-    def emit(segs, loc, status, why, tags):
+    def _defs(node):
+        if node is None:
+            return
+        if node.get("anchor") and not node.get("alias"):
+            val_defs.add(node["anchor"])
+        for e in node.get("entries", []) + node.get("members", []):
+            if e.get("key_anchor") and not e.get("key_alias"):
+                key_defs.add(e["key_anchor"])
+            _defs(e.get("val"))
+        for it in node.get("items", []):
+            _defs(it)
+    _defs(doc_model)
+
+    def emit(segs, loc, status, why, tags, node=None, ent=None):
         if status == REQUIRED and "merged" in tags and not (IK and IV):
             status = OPTIONAL                         # R3: which single option "asks" is from-code
+        if status == FORBIDDEN and node is not None and node.get("alias") and node.get("anchor") in key_defs \
+                and node.get("anchor") not in val_defs and "aliased-value" in why:
+            why += "/alias-of-a-key-anchor"
+        if status == FORBIDDEN and ent is not None and ent.get("key_alias") and ent.get("key_anchor") in val_defs \
+                and ent.get("key_anchor") not in key_defs and "aliased-key" in why:
+            why += "/alias-of-a-value-anchor"
         out.append(Expect(tuple(segs), tuple(loc), status, why, tuple(sorted(tags))))
 
     def children(node, segs, loc):
@@ -187,7 +209,7 @@ def classify(doc_model, terms, opts):
                     t.add("merged")
                 if e["key_alias"]:
                     if not IK:                                           # R2
-                        emit(s2, l2, FORBIDDEN, "aliased-key-entry", t)
+                        emit(s2, l2, FORBIDDEN, "aliased-key-entry", t, ent=e)
                         mark_below(e["val"], s2, l2, FORBIDDEN, "aliased-key-entry", t)
                         continue
                     t.add("alias-key")
@@ -232,7 +254,7 @@ def classify(doc_model, terms, opts):
                     # the original sits below a matched key (R4) or an excluded entry: the
                     # statement still calls this occurrence a repeat, but it is its own class
                     why += "-of-unvisited-anchor"
-                emit(segs, loc, FORBIDDEN, why, tags)
+                emit(segs, loc, FORBIDDEN, why, tags, node=node)
                 mark_below(node, segs, loc, FORBIDDEN, why, tags)
                 return
             tags = set(tags) | {"alias-value"}
@@ -274,7 +296,7 @@ def classify(doc_model, terms, opts):
                 why = "expanded-aliased-value"
                 if k == "scalar" and node["anchor"] in unvisited:
                     why += "-of-unvisited-anchor"      # original sits below a discarded aliased key
-                emit(segs, loc, FORBIDDEN, why, tags)
+                emit(segs, loc, FORBIDDEN, why, tags, node=node)
                 mark_below(node, segs, loc, FORBIDDEN, why, tags)
                 return
             tags = set(tags) | {"alias-value"}
@@ -303,7 +325,7 @@ def classify(doc_model, terms, opts):
                     t.add("merged")
                 if e["key_alias"]:
                     if not IK:                                           # R2
-                        emit(s2, l2, FORBIDDEN, "expanded-aliased-key-entry", t)
+                        emit(s2, l2, FORBIDDEN, "expanded-aliased-key-entry", t, ent=e)
                         mark_below(e["val"], s2, l2, FORBIDDEN, "expanded-aliased-key-entry", t)
                         continue
                     t.add("alias-key")
